@@ -190,7 +190,11 @@ func runC03Exhaustive(t *fw.T) {
 
 // checkAssembled places the expression in two neutral statement contexts and round-trips it.
 func checkAssembled(t *fw.T, e *gen.Node, label string) {
-	prog := gen.Prog(gen.Let("v", e), gen.ExprStmt(gen.Asg("=", gen.Id("r"), e)))
+	// as initialiser, as right-hand side, and as a statement of its own (first in its statement; brace-less branch of an
+	// if / else): an expression statement takes any expression, the printer has to keep `function` / `{` at its start
+	// from being read as a declaration / a block
+	prog := gen.Prog(gen.Let("v", e), gen.ExprStmt(gen.Asg("=", gen.Id("r"), e)), gen.ExprStmt(e),
+		&gen.Node{K: gen.KIf, Kids: []*gen.Node{gen.Id("c"), gen.ExprStmt(e), gen.ExprStmt(e)}})
 	want := prog.S()
 	var ap *ast.Program
 	// every fourth group of cases assembles operator nodes with tokens that carry the type only
